@@ -1,11 +1,195 @@
+import Dalek.Driver.Codec
+import Dalek.Spec.Field
+import Dalek.Spec.Scalar
+import Dalek.Gen.All
 /-
-  Dalek.Driver.Raw — raw-limb ops (`felW.*`, `felvW.*`, `sclW.*`).  STUB: returns `none`, which the
-  driver turns into `skip`.  To be filled in from the generated LimbIR.
--/
+  Dalek.Driver.Raw — raw-limb ops (`felW.*`, `felvW.*`, `sclW.*`).
 
+  * `felW.*` / `sclW.*` execute the TRANSLATED kernels (`Dalek.Gen.*`, release semantics `evalW`) on the raw
+    limbs: comparing with the hook output limb-for-limb is the translation validation of `rs2lean`.
+  * `felvW.*` are answered from the SPECIFICATION (value of the limb vector mod p, then the field operation):
+    comparing with the real code's canonical bytes is the value-level differential for unreduced inputs.
+-/
 namespace Dalek.Driver.Raw
+open Dalek.IR Dalek.Spec Dalek.Driver
+
+def natList (s : String) : Option (List Nat) := (parseList s).mapM parseNat
+def fmtNats (xs : List Nat) : String := fmtList (xs.map toString)
+def okNats (xs : List Nat) : Option String := some ("ok " ++ fmtNats xs)
+def okHex (xs : List Nat) : Option String := some ("ok " ++ hexEncode (xs.map UInt8.ofNat))
+def bad : Option String := some "err badreq"
+
+def bytesArg (n : Nat) (s : String) : Option (List Nat) :=
+  match hexDecode s with
+  | some b => if b.length = n then some (b.map UInt8.toNat) else none
+  | none => none
+
+def iter (f : List Nat → List Nat) : Nat → List Nat → List Nat
+  | 0, x => x
+  | n + 1, x => iter f n (f x)
+
+def iterN (f : Nat → Nat) : Nat → Nat → Nat
+  | 0, x => x
+  | n + 1, x => iterN f n (f x)
+
+structure FieldK where
+  n : Nat
+  lim : Nat            -- exclusive bound of each input limb (type width)
+  add : Prog
+  sub : Prog
+  mul : Prog
+  neg : Prog
+  reduce : Prog
+  fromBytes : Prog
+  asBytes : Prog
+  square : List Nat → List Nat
+  square2 : List Nat → List Nat
+  weight : Nat → Nat   -- bit position of limb i
+
+def f51 : FieldK :=
+  { n := 5, lim := 2 ^ 64,
+    add := Dalek.Gen.Field51.add, sub := Dalek.Gen.Field51.sub, mul := Dalek.Gen.Field51.mul,
+    neg := Dalek.Gen.Field51.neg, reduce := Dalek.Gen.Field51.reduce,
+    fromBytes := Dalek.Gen.Field51.from_bytes, asBytes := Dalek.Gen.Field51.as_bytes,
+    square := Dalek.Gen.Field51.pow2k_body.evalW,
+    square2 := fun a => Dalek.Gen.Field51.square2_tail.evalW (Dalek.Gen.Field51.pow2k_body.evalW a),
+    weight := fun i => 51 * i }
+
+def f26 : FieldK :=
+  { n := 10, lim := 2 ^ 32,
+    add := Dalek.Gen.Field26.add, sub := Dalek.Gen.Field26.sub, mul := Dalek.Gen.Field26.mul,
+    neg := Dalek.Gen.Field26.neg, reduce := Dalek.Gen.Field26.reduce,
+    fromBytes := Dalek.Gen.Field26.from_bytes, asBytes := Dalek.Gen.Field26.as_bytes,
+    square := Dalek.Gen.Field26.square.evalW,
+    square2 := Dalek.Gen.Field26.square2.evalW,
+    weight := fun i => (51 * i + 1) / 2 }
+
+def limbsArg (k : FieldK) (s : String) : Option (List Nat) :=
+  match natList s with
+  | some l => if l.length = k.n ∧ l.all (· < k.lim) then some l else none
+  | none => none
+
+def valueOf (k : FieldK) (l : List Nat) : Nat :=
+  ((List.range k.n).zip l).foldl (fun acc (i, x) => acc + x * 2 ^ k.weight i) 0
+
+def fieldOp (k : FieldK) (valueLevel : Bool) (op : String) (args : List String) : Option String :=
+  let out (limbs : List Nat) (spec : Nat) : Option String :=
+    if valueLevel then some ("ok " ++ hexEncode (feToBytes spec)) else okNats limbs
+  match op, args with
+  | "add", [a, b] => match limbsArg k a, limbsArg k b with
+      | some x, some y => out (k.add.evalW (x ++ y)) (fadd (valueOf k x) (valueOf k y)) | _, _ => bad
+  | "sub", [a, b] => match limbsArg k a, limbsArg k b with
+      | some x, some y => out (k.sub.evalW (x ++ y)) (fsub (valueOf k x) (valueOf k y)) | _, _ => bad
+  | "mul", [a, b] => match limbsArg k a, limbsArg k b with
+      | some x, some y => out (k.mul.evalW (x ++ y)) (fmul (valueOf k x) (valueOf k y)) | _, _ => bad
+  | "neg", [a] => match limbsArg k a with
+      | some x => out (k.neg.evalW x) (fneg (valueOf k x)) | _ => bad
+  | "square", [a] => match limbsArg k a with
+      | some x => out (k.square x) (fsq (valueOf k x)) | _ => bad
+  | "square2", [a] => match limbsArg k a with
+      | some x => out (k.square2 x) (fmul 2 (fsq (valueOf k x))) | _ => bad
+  | "pow2k", [a, n] => match limbsArg k a, parseNat n with
+      | some x, some j => if 1 ≤ j ∧ j ≤ 300 then out (iter k.square j x) (iterN fsq j (valueOf k x % P)) else bad
+      | _, _ => bad
+  | "from_bytes", [b] => match bytesArg 32 b with
+      | some x => out (k.fromBytes.evalW x) (feFromBytes (x.map UInt8.ofNat)) | _ => bad
+  | "as_bytes", [a] => match limbsArg k a with
+      | some x => if valueLevel then some ("ok " ++ hexEncode (feToBytes (valueOf k x))) else okHex (k.asBytes.evalW x)
+      | _ => bad
+  | "reduce", _ => none
+  | _, _ => bad
+
+structure ScalarK where
+  n : Nat
+  w : Nat              -- limb width in bits
+  wide : Nat           -- number of limbs of mul_internal output
+  fromBytes : Prog
+  fromBytesWide : Prog
+  asBytes : Prog
+  add : Prog
+  sub : Prog
+  mul : Prog
+  square : Prog
+  mulInternal : Prog
+  squareInternal : Prog
+  montgomeryReduce : Prog
+  montgomeryMul : Prog
+  montgomerySquare : Prog
+  asMontgomery : Prog
+  fromMontgomery : Prog
+  rBits : Nat          -- Montgomery radix R = 2^rBits
+
+def s52 : ScalarK :=
+  { n := 5, w := 52, wide := 9, rBits := 260,
+    fromBytes := Dalek.Gen.Scalar52.from_bytes, fromBytesWide := Dalek.Gen.Scalar52.from_bytes_wide,
+    asBytes := Dalek.Gen.Scalar52.as_bytes, add := Dalek.Gen.Scalar52.add, sub := Dalek.Gen.Scalar52.sub,
+    mul := Dalek.Gen.Scalar52.mul, square := Dalek.Gen.Scalar52.square,
+    mulInternal := Dalek.Gen.Scalar52.mul_internal, squareInternal := Dalek.Gen.Scalar52.square_internal,
+    montgomeryReduce := Dalek.Gen.Scalar52.montgomery_reduce, montgomeryMul := Dalek.Gen.Scalar52.montgomery_mul,
+    montgomerySquare := Dalek.Gen.Scalar52.montgomery_square, asMontgomery := Dalek.Gen.Scalar52.as_montgomery,
+    fromMontgomery := Dalek.Gen.Scalar52.from_montgomery }
+
+def s29 : ScalarK :=
+  { n := 9, w := 29, wide := 17, rBits := 261,
+    fromBytes := Dalek.Gen.Scalar29.from_bytes, fromBytesWide := Dalek.Gen.Scalar29.from_bytes_wide,
+    asBytes := Dalek.Gen.Scalar29.as_bytes, add := Dalek.Gen.Scalar29.add, sub := Dalek.Gen.Scalar29.sub,
+    mul := Dalek.Gen.Scalar29.mul, square := Dalek.Gen.Scalar29.square,
+    mulInternal := Dalek.Gen.Scalar29.mul_internal, squareInternal := Dalek.Gen.Scalar29.square_internal,
+    montgomeryReduce := Dalek.Gen.Scalar29.montgomery_reduce, montgomeryMul := Dalek.Gen.Scalar29.montgomery_mul,
+    montgomerySquare := Dalek.Gen.Scalar29.montgomery_square, asMontgomery := Dalek.Gen.Scalar29.as_montgomery,
+    fromMontgomery := Dalek.Gen.Scalar29.from_montgomery }
+
+def sLimbs (_k : ScalarK) (cnt : Nat) (lim : Nat) (s : String) : Option (List Nat) :=
+  match natList s with
+  | some l => if l.length = cnt ∧ l.all (· < lim) then some l else none
+  | none => none
+
+def sValue (k : ScalarK) (l : List Nat) : Nat :=
+  ((List.range l.length).zip l).foldl (fun acc (i, x) => acc + x * 2 ^ (k.w * i)) 0
+
+def sUnpack (k : ScalarK) (v : Nat) : List Nat :=
+  (List.range k.n).map (fun i => (v / 2 ^ (k.w * i)) % 2 ^ k.w)
+
+def scalarOp (k : ScalarK) (op : String) (args : List String) : Option String :=
+  let lim := if k.w = 52 then 2 ^ 64 else 2 ^ 32
+  let limW := if k.w = 52 then 2 ^ 128 else 2 ^ 64
+  let un (p : Prog) (a : String) : Option String :=
+    match sLimbs k k.n lim a with | some x => okNats (p.evalW x) | none => bad
+  let bin (p : Prog) (a b : String) : Option String :=
+    match sLimbs k k.n lim a, sLimbs k k.n lim b with
+    | some x, some y => okNats (p.evalW (x ++ y)) | _, _ => bad
+  match op, args with
+  | "from_bytes", [b] => match bytesArg 32 b with | some x => okNats (k.fromBytes.evalW x) | none => bad
+  | "from_bytes_wide", [b] => match bytesArg 64 b with | some x => okNats (k.fromBytesWide.evalW x) | none => bad
+  | "as_bytes", [a] => match sLimbs k k.n lim a with | some x => okHex (k.asBytes.evalW x) | none => bad
+  | "add", [a, b] => bin k.add a b
+  | "sub", [a, b] => bin k.sub a b
+  | "mul", [a, b] => bin k.mul a b
+  | "mul_internal", [a, b] => bin k.mulInternal a b
+  | "montgomery_mul", [a, b] => bin k.montgomeryMul a b
+  | "square", [a] => un k.square a
+  | "square_internal", [_] => none
+  | "montgomery_square", [a] => un k.montgomerySquare a
+  | "as_montgomery", [a] => un k.asMontgomery a
+  | "from_montgomery", [a] => un k.fromMontgomery a
+  | "montgomery_reduce", [a] => match sLimbs k k.wide limW a with
+      | some x => okNats (k.montgomeryReduce.evalW x) | none => bad
+  -- the two inversion chains are hand models over the kernels (AlgIR); value-level specification here
+  | "invert", [a] => match sLimbs k k.n lim a with
+      | some x => okNats (sUnpack k (sinv (sValue k x))) | none => bad
+  | "montgomery_invert", [a] => match sLimbs k k.n lim a with
+      | some x => okNats (sUnpack k (smul (sinv (sValue k x)) (smul (2 ^ k.rBits % L) (2 ^ k.rBits % L)))) | none => bad
+  | _, _ => bad
 
 /-- `rawOp op args` = the full response line for a raw-limb op, or `none` if not served. -/
-def rawOp (_op : String) (_args : List String) : Option String := none
+def rawOp (op : String) (args : List String) : Option String :=
+  match op.splitOn "." with
+  | ["fel51", o] => fieldOp f51 false o args
+  | ["fel26", o] => fieldOp f26 false o args
+  | ["felv51", o] => fieldOp f51 true o args
+  | ["felv26", o] => fieldOp f26 true o args
+  | ["scl52", o] => scalarOp s52 o args
+  | ["scl29", o] => scalarOp s29 o args
+  | _ => none
 
 end Dalek.Driver.Raw
